@@ -88,7 +88,8 @@ impl<'a> Read for FragReader<'a> {
 		}
 		buf[..n].copy_from_slice(&self.data[self.pos..self.pos + n]);
 		// poison the rest of the caller's buffer: a reader that trusts more than `n` bytes is wrong
-		for b in buf[n..].iter_mut() {
+		let lim = buf.len().min(n + 64);
+		for b in buf[n..lim].iter_mut() {
 			*b = 0xA5;
 		}
 		self.pos += n;
